@@ -283,7 +283,9 @@ Definition p_slp_read (hash : bool) (total : nat) : prog game :=
   let s := if vlt (ver s) 3 0 then frame_close s else s in
   pbc (if (ps_bytes_read s <? raw_len)%N then
          let len := (raw_len - ps_bytes_read s)%N in
-         pb (p_exact (N.to_nat len)) (fun buf =>
+         (* len comes from the file (up to 2^32): total - c bytes remain, and reading S (total - c) bytes fails
+            (EIo, everything consumed) exactly like reading any len > total - c; so no huge unary number *)
+         pb (p_exact (N.to_nat (N.min len (N.of_nat (S (total - c)))))) (fun buf =>
            if N.eqb len (1 + game_End_size (ver s)) && N.eqb (b2n (hd x00 buf)) Event_GameEnd
            then PRet (set_quirk s) else PRet s)
        else PRet s) c (fun s c =>
